@@ -23,8 +23,13 @@ def _case(check: Check, case, record=False):
     n = mc.NROWS
 
     def fn():
-        d1 = (mc.cat_frame(), {"a": sym_vector("a", n), "b": sym_vector("b", n)})
-        d2 = (mc.cat_frame(a_rows=list(reversed(mc.A_ROWS))), {"a": sym_vector("c", n), "b": sym_vector("d", n)})
+        import numpy
+
+        f1, f2 = mc.cat_frame(), mc.cat_frame(a_rows=list(reversed(mc.A_ROWS)))
+        f1["z"] = numpy.arange(n, dtype=float) + 0.5
+        f2["z"] = [numpy.nan if k in cc.Z_NULLS_D2 else 10.0 + k for k in range(n)]
+        d1 = (f1, {"a": sym_vector("a", n), "b": sym_vector("b", n)})
+        d2 = (f2, {"a": sym_vector("c", n), "b": sym_vector("d", n)})
         with symbolic_pipeline():
             return cc.run_history(formula, history, {1: d1, 2: d2}, same_cell, lambda num: dict(num))
 
